@@ -393,6 +393,7 @@ Check (C16_tables_in_sync :
   V.gen.C16Tables.results = tbl_results /\
   V.gen.C16Tables.transports = tbl_transports /\
   V.gen.C16Tables.refresh = tbl_refresh /\
+  V.gen.C16Tables.dial_arms = tbl_dial_arms /\
   map (fun r : String.string * list String.string * list String.string * list String.string => (fst (fst (fst r)), snd (fst r)))
       V.gen.C16Tables.loop_cmds = tbl_cmd_store /\
   map (fun r : String.string * list String.string * list String.string * list String.string => (fst (fst (fst r)), snd r))
